@@ -35,7 +35,9 @@ BOUNDS = {
     "{StateVector, Kepler Orbit} x forms {cartesian, keplerian, spherical, keplerian_mean} x frames {EME2000, TEME} x 3 orientations on 3 states (6 in thorough); dkep2dv: 4 orbits x 245 increments "
     "(+ 5 positions for pure da); KeplerNum: {euler, rk4, dopri54} x 60 s x 24 steps, 3 date kinds x 3 tags x 4 vectors single impulses, all ordered pairs and "
     "a set of triples of a 6-maneuver alphabet; continuous burns: 5 windows x 3 tags x 3 methods; "
-    "the same maneuver object (4 classes) used 2-3 times on two orbits in every order, through a propagation and through dv()/accel(), vs a fresh object",
+    "the same maneuver object (4 classes) used 2-3 times on two orbits in every order, through a propagation and through dv()/accel(), vs a fresh object; "
+    "maneuver vectors given as list / tuple / int ndarray / float ndarray, the caller's buffer refilled after construction; orbit2frame references given in "
+    "frames centred elsewhere (another orbit's frame, a station, the Moon)",
     "thorough": "as quick with steps {15, 60, 120} s, rkf54 added, all ordered triples of the 6-maneuver alphabet, orbit2frame on all 72 states and all registration pairs and triples under one name (6 072 histories), dkep2dv on 6 orbits",
 }
 ASSUMPTIONS = [
@@ -259,7 +261,7 @@ def _register(ref, orient, moving):
     return orbit2frame(FRAME_NAME, ref, orient)
 
 
-def _verify_frame(t, case, sid, orient, moving, ref, suffix="", dts=(0.0, 420.0)):
+def _verify_frame(t, case, sid, orient, moving, ref, suffix="", dts=(0.0, 420.0), tol_r=1e-6):
     """Origin, axes (definition triad of the CURRENT orbit) and round trip of the frame currently registered as FRAME_NAME."""
     from datetime import timedelta
     from beyond.orbits import StateVector
@@ -283,7 +285,7 @@ def _verify_frame(t, case, sid, orient, moving, ref, suffix="", dts=(0.0, 420.0)
         except LIBERR as e:
             t.fail(f"orbit2frame/{orient}/convert-raises-{type(e).__name__}{suffix}", "the attached frame converts to and from its parent", dict(case, dt=dt), "state", repr(e)[:200])
             continue
-        tol_r = 1e-6
+        # tol_r: 1e-6 m (+ 256 eps x distance of the reference frame's centre from the Earth when the chain passes through it)
         e0 = float(np.linalg.norm(o_in[:3]))
         e0v = float(np.linalg.norm(o_in[3:]))
         if not t.margin("F: orbit at the origin of its frame [m] / 1e-6", max(e0, e0v / 1e-3), tol_r):
@@ -329,6 +331,32 @@ def check_frame(case, t):
 FR_STATES = ["r0g0a0", "r2g1a2", "r6g0a1", "r5g1a0", "r3g0a2", "r7g1a1"]
 FR_FORMS = ["cartesian", "keplerian", "spherical", "keplerian_mean"]
 FR_FRAMES = ["EME2000", "TEME"]
+# frames whose CENTRE is not the parent's: another orbit's frame (a chaser given relative to its target), a ground station, the Moon
+FR_OFFCENTRE = ["host-orbit", "station", "Moon"]
+
+
+def _offcentre_frame(kind):
+    """Create (after a registry reset) a frame whose centre is not the Earth's; returns (frame name, distance of its centre from the Earth)."""
+    from beyond.orbits import Orbit
+
+    if kind == "host-orbit":
+        from beyond.frames.frames import orbit2frame
+        from mc.ref import twobody
+
+        host = Orbit(twobody.kep_to_cart(7.3e6, 0.01, 0.8, 0.4, 0.3, 0.2, _G["mu"]), _G["epoch"], "cartesian", "EME2000", "Kepler")
+        orbit2frame("C17Host", host, None)
+        return "C17Host", 7.3e6
+    if kind == "station":
+        from beyond.frames import create_station
+
+        create_station("C17Station", (43.4, 1.5, 180.0))
+        return "C17Station", 6.4e6
+    if kind == "Moon":
+        from beyond.env import solarsystem
+
+        solarsystem.get_frame("Moon")
+        return "Moon", 4.1e8
+    raise ValueError(kind)
 
 
 def check_frame_reference(case, t):
@@ -341,6 +369,14 @@ def check_frame_reference(case, t):
     try:
         key = ("FR", sid, orient, moving, form, frame)
         base = StateVector(y, _G["epoch"], "cartesian", "EME2000")
+        dist = 0.0
+        if frame in FR_OFFCENTRE:
+            try:
+                frame, dist = _offcentre_frame(frame)
+                t.trans()
+            except LIBERR as e:
+                t.fail(f"orbit2frame/fixture-frame-raises-{type(e).__name__}", "the frame the reference orbit is given in can be created", case, "frame", repr(e)[:200])
+                return
         try:
             given = base.copy(frame=frame, form=form)
             back = A(given.copy(form="cartesian", frame="EME2000"))
@@ -360,6 +396,8 @@ def check_frame_reference(case, t):
             suffix = "/statevector-reference-not-cartesian"
         elif form != "cartesian":
             suffix = "/orbit-reference-not-cartesian"
+        elif dist:
+            suffix = "/reference-in-frame-with-another-centre"
         elif frame != "EME2000":
             suffix = "/reference-in-other-frame"
         else:
@@ -372,7 +410,7 @@ def check_frame_reference(case, t):
             return
         # a fixed state given in a frame that moves against the parent only designates a point at its own date
         dts = (0.0, 420.0) if (moving or frame == "EME2000") else (0.0,)
-        _verify_frame(t, case, sid, orient, moving, ref, suffix, dts)
+        _verify_frame(t, case, sid, orient, moving, ref, suffix, dts, tol_r=1e-6 + 256 * EPS * dist)
         t.outcome(("FR", form, frame, moving))
     finally:
         world.restore(_G["snap"])
@@ -832,6 +870,75 @@ def check_man_reuse(case, t):
 
 
 # ---------------------------------------------------------------------------
+# part MA : how the vector argument of a maneuver is given (list, tuple, int / float ndarray) and what the caller does with it afterwards
+
+MA_ARGS = ["ImpulsiveMan.dv", "ContinuousMan.dv", "ContinuousMan.accel"]
+MA_CONTAINERS = ["list", "tuple", "int-ndarray", "float-ndarray"]
+MA_VALUES = (10.0, 0.0, -4.0)
+MA_AFTER = (0.0, 3.0, 4.0)
+
+
+def _ma_container(kind, values):
+    if kind == "list":
+        return [float(v) for v in values]
+    if kind == "tuple":
+        return tuple(float(v) for v in values)
+    if kind == "int-ndarray":
+        return np.array([int(v) for v in values])
+    if kind == "float-ndarray":
+        return np.array(values, dtype=float)
+    if kind == "float32-ndarray":
+        return np.array(values, dtype=np.float32)
+    raise ValueError(kind)
+
+
+def _ma_man(arg, vec, h_us):
+    from datetime import timedelta
+    from beyond.orbits import man as M
+
+    if arg == "ImpulsiveMan.dv":
+        return M.ImpulsiveMan(at(4 * h_us + h_us // 2), vec, frame="TNW")
+    if arg == "ContinuousMan.dv":
+        return M.ContinuousMan(at(3 * h_us), timedelta(microseconds=4 * h_us), dv=vec, frame="TNW")
+    return M.ContinuousMan(at(3 * h_us), timedelta(microseconds=4 * h_us), accel=vec, frame="TNW")
+
+
+def check_man_argument(case, t):
+    arg, cont, kind, mutate = case["arg"], case["container"], case["kind"], case["mutate"]
+    h_us = 60_000_000
+    key = ("MA", arg, cont, kind, mutate)
+    t.ev(key)
+    t.state(key)
+    clause = "a maneuver contributes exactly its STATED delta-v / acceleration: the value given at construction, whatever container it came in"
+    try:
+        want = _use(_ma_man(arg, [float(v) for v in MA_VALUES], h_us), "A", kind, h_us)  # oracle: plain list, used once
+        buf = _ma_container(cont, MA_VALUES)
+        man = _ma_man(arg, buf, h_us)
+        if mutate:
+            if isinstance(buf, list):
+                buf[:] = list(MA_AFTER)
+            elif isinstance(buf, np.ndarray):
+                buf[:] = MA_AFTER
+            else:
+                t.exclude("a tuple cannot be modified by the caller")
+                return
+        before = np.array(buf, dtype=float)
+        got = _use(man, "A", kind, h_us)
+        t.trans(2)
+    except LIBERR as e:
+        t.fail(f"man/{arg}/argument-{cont}/raises-{type(e).__name__}", clause, case, "result", repr(e)[:200])
+        return
+    t.outcome(("MA", arg, cont, mutate))
+    dev = float(np.max(np.abs(got - want)))
+    if not t.margin("MA: maneuver built from another container / modified buffer vs built from a list (bit-identical expected) / 1e-12", dev, 1e-12):
+        sym = "caller-buffer-aliased" if mutate else "container-changes-value"
+        t.fail(f"man/{arg}/{sym}", clause, case, [float(x) for x in want], [float(x) for x in got],
+               f"{arg} given as {cont}" + (" and the caller's buffer refilled afterwards" if mutate else "") + f" ({kind}): result differs by {dev:.4e}")
+    if not np.array_equal(np.array(buf, dtype=float), before):
+        t.fail(f"man/{arg}/caller-buffer-modified-by-use", "using a maneuver does not write into the caller's array", case, before.tolist(), np.array(buf, dtype=float).tolist())
+
+
+# ---------------------------------------------------------------------------
 # units
 
 
@@ -847,6 +954,7 @@ def units(tier, seed):
         u.append((cfg, dict(part="F", cases=fc[i : i + 24])))
     frs = FR_STATES if tier == "thorough" else FR_STATES[:3]
     rc = [dict(part="FR", state=st, orient=o, moving=m, form=f, frame=fr) for st in frs for o in TAGS for m in (False, True) for f in FR_FORMS for fr in FR_FRAMES]
+    rc += [dict(part="FR", state=st, orient=o, moving=False, form="cartesian", frame=fr) for st in frs for o in TAGS for fr in FR_OFFCENTRE]
     for i in range(0, len(rc), 36):
         u.append((cfg, dict(part="FR", cases=rc[i : i + 36])))
     # registration histories under one name: all ordered pairs (quick) / triples (thorough) of the 12-element alphabet with a change at
@@ -870,6 +978,8 @@ def units(tier, seed):
     mh = [dict(part="MH", cls=c, order=list(o), kind=k) for c in MH_CLASSES for o in (("A", "B"), ("B", "A"), ("A", "A"), ("B", "B"), ("A", "B", "A"))
           for k in ("propagation", "direct-call")]
     u.append((cfg, dict(part="MH", cases=mh)))
+    ma = [dict(part="MA", arg=a, container=c, kind=k, mutate=m) for a in MA_ARGS for c in MA_CONTAINERS for k in ("propagation", "direct-call") for m in (False, True)]
+    u.append((cfg, dict(part="MA", cases=ma)))
     methods = ["euler", "rk4", "dopri54"] + (["rkf54"] if tier == "thorough" else [])
     hs = [60] if tier == "quick" else [15, 60, 120]
     names = list(MAN_ALPHABET)
@@ -918,6 +1028,8 @@ def check_case(case, t):
         check_frame_reference(case, t)
     elif part == "MH":
         check_man_reuse(case, t)
+    elif part == "MA":
+        check_man_argument(case, t)
     elif part == "K":
         check_dkep(case, t)
     elif part == "N":
